@@ -7,7 +7,7 @@ import json, os, subprocess, sys, tempfile
 import xml.etree.ElementTree as ET
 V = os.path.dirname(os.path.dirname(os.path.abspath(__file__)))
 pid, m, extra = sys.argv[1], sys.argv[2], sys.argv[3:]
-wt = f"/tmp/seed2/{pid}"
+wt = os.path.join(os.environ.get("SEED_WT", "/tmp/seed2"), pid)
 src = f"{wt}/{m}"
 sid = f"{pid}-{m}"
 out = {"seed": sid}
@@ -41,7 +41,7 @@ try:
     meta = json.load(open(mp))
     meta["confirmed"]["baseline_tests_passing"] = out["baseline_tests_passing"]
     meta["confirmed"]["baseline_tests_lost"] = out["baseline_tests_lost"]
-    meta["wave"] = 2
+    meta["wave"] = int(os.environ.get("SEED_WAVE", "2"))
     json.dump(meta, open(mp, "w"), indent=1)
 except Exception as ex:
     out["error"] = (t + r.stderr)[-400:]
